@@ -534,9 +534,11 @@ impl Vec2 {
     #[inline]
     #[must_use]
     pub fn try_normalize(self) -> Option<Self> {
-        let rcp = self.length_recip();
-        if rcp.is_finite() && rcp > 0.0 {
-            Some(self * rcp)
+        // A squared length that is zero, subnormal, infinite or NaN is too close to zero (or too
+        // large) to normalize accurately: a subnormal value has lost most of its precision.
+        let length_sq = self.length_squared();
+        if length_sq.is_normal() {
+            Some(self * math::sqrt(length_sq).recip())
         } else {
             None
         }
@@ -552,12 +554,7 @@ impl Vec2 {
     #[inline]
     #[must_use]
     pub fn normalize_or(self, fallback: Self) -> Self {
-        let rcp = self.length_recip();
-        if rcp.is_finite() && rcp > 0.0 {
-            self * rcp
-        } else {
-            fallback
-        }
+        self.try_normalize().unwrap_or(fallback)
     }
 
     /// Returns `self` normalized to length 1.0 if possible, else returns zero.
@@ -578,10 +575,11 @@ impl Vec2 {
     #[inline]
     #[must_use]
     pub fn normalize_and_length(self) -> (Self, f32) {
-        let length = self.length();
-        let rcp = 1.0 / length;
-        if rcp.is_finite() && rcp > 0.0 {
-            (self * rcp, length)
+        // See `try_normalize` for the condition.
+        let length_sq = self.length_squared();
+        if length_sq.is_normal() {
+            let length = math::sqrt(length_sq);
+            (self * length.recip(), length)
         } else {
             (Self::X, 0.0)
         }
